@@ -17,7 +17,9 @@ kept only for this theorem; the crash suite had replayed it on the real code).  
 `<segkey>.sfm.tmp`, Sync, rename onto `<segkey>.sfm`) statement 1 holds at full strength (`crash_prefix_safe`).
 -/
 import SigModel.Model.Crash
+import SigModel.Model.CrashMeta
 import SigModel.Lemmas.C07d
+import SigModel.Lemmas.C07e
 
 namespace SigModel.Props.C07
 open SigModel.Crash
@@ -89,5 +91,124 @@ theorem restart_no_overwrite (h : Hist) (k : Nat) :
 yet created): both flushes served from the sealed segment, next suffix 2 -/
 example : visible (crashAfter [.fl [0, 1], .fl [2], .ro] 21) = [0, 1] ∧ nextSuffix (crashAfter [.fl [0, 1], .fl [2], .ro] 21) = 2
     ∧ (crashAfter [.fl [0, 1], .fl [2], .ro] 21).dirs = [0] := by decide
+
+/-! ### "searchable", not only "served by a match-all search": the metadata records (Model/CrashMeta.lean)
+
+`evs f` are the events of flush `f` (any assignment of events to flushes); every metadata record on disk — the
+running `.sfm` after each flush, the record a rotation writes to the `.sfm` and to segmeta.json — is built from the
+SegStore fields, which the per-record rule `SM.addEv` maintains.  Ingest never stores a timestamp 0 (it is replaced
+by the arrival time), hence `PosTs`; the field value 0 means "no record yet" in the code. -/
+
+/-- no stored event has the timestamp 0 -/
+def PosTs (evs : Evs) : Prop := ∀ f, ∀ e ∈ evs f, 0 < e.ts
+
+/-- C07.5 metadata soundness: after a crash at ANY step of ANY history, every completed flush is served from an
+adopted segment whose metadata record — the one the restarted node prunes by — covers every event of the flush
+(advertised time range contains the timestamp, advertised column set contains the columns), was built from the
+flush (so its RecordCount counts it), and counts exactly the records it was built from. -/
+theorem meta_sound (evs : Evs) (hpos : PosTs evs) (h : Hist) (k : Nat) :
+    ∀ f ∈ completed h k, ∃ p ∈ metas (crashAfter h k),
+      f ∈ segVisible ((crashAfter h k).seg p.1) ∧ f ∈ p.2 ∧ (∀ e ∈ evs f, (metaOf evs p.2).covers e) ∧
+      (metaOf evs p.2).recs = (evsOf evs p.2).length := by
+  intro f hf
+  rcases SigModel.Lemmas.C07.crashAfter_meta h k f hf with ⟨p, hp, hfp, hv⟩
+  refine ⟨p, hp, hv, hfp, ?_, SigModel.Lemmas.C07.ofEvents_recs _⟩
+  intro e he
+  have hall : ∀ x ∈ evsOf evs p.2, 0 < x.ts := by
+    intro x hx
+    rcases List.mem_flatMap.1 hx with ⟨g, _, hg⟩
+    exact hpos g x hg
+  exact SigModel.Lemmas.C07.ofEvents_covers hall e (List.mem_flatMap.2 ⟨f, hfp, he⟩)
+
+/-- C07.6 every event of a completed flush is SEARCHABLE after the crash: whatever the time window and column
+condition of the search, an event of a completed flush that satisfies them is returned — the segment is not pruned
+by its advertised time range, the block is not pruned by its summary.  All histories, all crash points, all
+queries. -/
+theorem time_search_complete (evs : Evs) (hpos : PosTs evs) (h : Hist) (k : Nat) (q : Query) :
+    ∀ f ∈ completed h k, ∀ e ∈ evs f, evPass q e = true → e ∈ search evs (crashAfter h k) q := by
+  intro f hf e he hq
+  rcases meta_sound evs hpos h k f hf with ⟨p, hp, hv, _, hc, _⟩
+  unfold search searchWith
+  refine List.mem_flatMap.2 ⟨f, ?_, List.mem_filter.2 ⟨he, hq⟩⟩
+  have hb := SigModel.Lemmas.C07.ofEvents_covers (fun x hx => hpos f x hx) e he
+  exact SigModel.Lemmas.C07.mem_searchFlushesWith_of hp
+    (SigModel.Lemmas.C07.rangePass_of_covers (hc e he) hq) hv
+    (SigModel.Lemmas.C07.rangePass_of_covers hb hq) (hc e he).1 (hc e he).2.1 hb.2.1
+
+/-- C07.7 … exactly once and nothing else: every search reads each block at most once, and only blocks the
+match-all search serves (so by C07.3 only completed flushes or the one flush in progress). -/
+theorem time_search_exactly_once (evs : Evs) (h : Hist) (k : Nat) (q : Query) :
+    (searchFlushes evs (crashAfter h k) q).Nodup ∧
+    ∀ f ∈ searchFlushes evs (crashAfter h k) q, f ∈ completed h k ∨ inflight h k = some f := by
+  have hs := SigModel.Lemmas.C07.searchFlushesWith_sublist metaOf evs (crashAfter h k) q
+  exact ⟨hs.nodup (crash_prefix_safe h k).2, fun f hf => no_garbage h k f (hs.subset hf)⟩
+
+/-- C07.6 for the VARIANT that caches the record at the first block of a segment and refreshes only counters and
+columns afterwards (time range of the FIRST block): -/
+def TimeSearchCompleteCachedRange : Prop :=
+  ∀ (evs : Evs), PosTs evs → ∀ (h : Hist) (k : Nat) (q : Query),
+    ∀ f ∈ completed h k, ∀ e ∈ evs f, evPass q e = true → e ∈ searchWith metaOfCachedRange evs (crashAfter h k) q
+
+/-- two flushes into one segment, the second one later in time -/
+def cexEvs : Evs := fun f => if f = 0 then [⟨1, 1000, ["a"]⟩] else if f = 1 then [⟨2, 60000, ["a"]⟩] else []
+
+/-- … that variant loses a completed flush: two flushes into one unrotated segment, crash after the second flush
+completed (step 15), search over the window of the second flush — the segment is pruned, nothing is returned;
+the match-all search still serves both flushes. -/
+theorem time_search_complete_counterexample_cached_range : ¬ TimeSearchCompleteCachedRange := by
+  intro H
+  have hpos : PosTs cexEvs := by
+    intro f e he
+    unfold cexEvs at he
+    split at he
+    · simp at he; subst he; decide
+    · split at he
+      · simp at he; subst he; decide
+      · cases he
+  have h1 : (1 : Nat) ∈ completed cexHist 15 := by decide
+  have hs : searchWith metaOfCachedRange cexEvs (crashAfter cexHist 15) ⟨59000, 61000, none⟩ = [] := by decide
+  have := H cexEvs hpos cexHist 15 ⟨59000, 61000, none⟩ 1 h1 ⟨2, 60000, ["a"]⟩ (by decide) (by decide)
+  rw [hs] at this
+  cases this
+
+/-- the same cut with the rule of the code: the window of the second flush returns its event, the window of the
+first flush the first one, and the match-all search of the variant would still have served both -/
+example : (search cexEvs (crashAfter cexHist 15) ⟨59000, 61000, none⟩).map (·.id) = [2] ∧
+    (search cexEvs (crashAfter cexHist 15) ⟨900, 1100, none⟩).map (·.id) = [1] ∧
+    visible (crashAfter cexHist 15) = [0, 1] ∧
+    metaOf cexEvs [0, 1] = { lo := 1000, hi := 60000, recs := 2, cols := ["a", "a"] } ∧
+    metaOfCachedRange cexEvs [0, 1] = { lo := 1000, hi := 1000, recs := 2, cols := ["a", "a"] } := by decide
+
+/-- full strength for the CONTENT of what is served: every event a restart serves has all its columns in the
+column set its segment advertises (the record reader reads the advertised columns only) -/
+def ServedColumnsAdvertised : Prop :=
+  ∀ (evs : Evs) (h : Hist) (k : Nat), ∀ p ∈ metas (crashAfter h k), ∀ f ∈ segVisible ((crashAfter h k).seg p.1),
+    ∀ e ∈ evs f, ∀ c ∈ e.cols, c ∈ (metaOf evs p.2).cols
+
+/-- the second flush brings a column the first one did not have -/
+def cexEvsCol : Evs := fun f => if f = 0 then [⟨1, 1000, ["a"]⟩] else if f = 1 then [⟨2, 60000, ["a", "c1"]⟩] else []
+
+/-- … which the code violates for the flush IN PROGRESS: its block summary is written (step 11) before the running
+.sfm names the new column (step 15), and the restart reads every block summary present; in between the event of the
+flush in progress is served without its new column (replayed on the real code: crash/inflight-new-column-dropped) -/
+theorem served_columns_advertised_counterexample : ¬ ServedColumnsAdvertised := by
+  intro H
+  have := H cexEvsCol cexHist 11 (0, [0]) (by decide) 1 (by decide) ⟨2, 60000, ["a", "c1"]⟩ (by decide) "c1" (by decide)
+  revert this
+  decide
+
+/-- … and keeps for every COMPLETED flush (guard: `f ∈ completed h k`; satisfiable: see the examples above): it is
+served from a segment whose advertised column set contains every column of every one of its events -/
+theorem served_columns_advertised_partial (evs : Evs) (hpos : PosTs evs) (h : Hist) (k : Nat) :
+    ∀ f ∈ completed h k, ∃ p ∈ metas (crashAfter h k), f ∈ segVisible ((crashAfter h k).seg p.1) ∧
+      ∀ e ∈ evs f, ∀ c ∈ e.cols, c ∈ (metaOf evs p.2).cols := by
+  intro f hf
+  rcases meta_sound evs hpos h k f hf with ⟨p, hp, hv, _, hc, _⟩
+  exact ⟨p, hp, hv, fun e he => (hc e he).2.2⟩
+
+/-- `PosTs` is needed in the MODEL of the per-record rule (0 = "no record yet"): a record with timestamp 0 followed
+by a later one leaves a range that misses the first — which is why ingest must never store 0 -/
+example : ¬ (SM.ofEvents [⟨1, 0, []⟩, ⟨2, 5, []⟩]).covers ⟨1, 0, []⟩ := by
+  intro h; exact absurd h.1 (by decide)
 
 end SigModel.Props.C07
